@@ -118,3 +118,46 @@ def min_bytes_len(v, k):
     if v >= 256 and k >= 2:
         min_bytes_len(v // 256, k - 1)
     return len(be_min_bytes(v)) <= k
+
+
+# ---------------------------------------------------------------- every integer decodes back to itself, from a minimal form
+@lemma(sig=dict(v=Int(0)), induct=lambda v: v, props=["C12"])
+def le_value_of_digits(v):
+    if v > 0:
+        le_value_of_digits(v // 256)
+    return le_value(le_digits(v)) == v
+
+
+@lemma(sig=dict(x=Bytes()), induct=lambda x: len(x), props=["C12"])
+def le_value_trailing_zero(x):
+    """a zero byte at the most significant end does not change a little-endian value"""
+    if len(x) > 0:
+        le_value_trailing_zero(x[1:])
+    return le_value(x + b"\x00") == le_value(x)
+
+
+@lemma(sig=dict(v=Int(0)), induct=lambda v: v, props=["C12"])
+def le_digits_msb(v):
+    """the most significant digit of a positive number is a non-zero byte"""
+    if v >= 256:
+        le_digits_msb(v // 256)
+    d = le_digits(v)
+    return implies(v > 0, len(d) >= 1 and d[len(d) - 1] > 0 and d[len(d) - 1] < 256)
+
+
+@lemma(sig=dict(v=Int()), options={'reveal': ['scriptnum_enc', 'scriptnum_dec']}, props=["C12"])
+def scriptnum_roundtrip(v):
+    """decoding the encoding of any integer gives it back"""
+    a = abs(v)
+    d = le_digits(a)
+    le_value_of_digits(a)
+    le_digits_msb(a)
+    le_value_trailing_zero(d)
+    return scriptnum_dec(scriptnum_enc(v)) == v
+
+
+@lemma(sig=dict(v=Int()), options={'reveal': ['scriptnum_enc', 'is_minimal_num']}, props=["C12"])
+def scriptnum_enc_minimal(v):
+    """the encoding is a minimal form (accepted under MINIMALDATA)"""
+    le_digits_msb(abs(v))
+    return is_minimal_num(scriptnum_enc(v))
